@@ -38,6 +38,7 @@ import Props.Lemmas.C10_Merge
 import Props.Lemmas.C10_Trace
 import Props.Lemmas.C10_Heap
 import Props.Lemmas.C10_Table
+import Props.Lemmas.C10_Fail
 import Props.C09
 
 namespace Pypyr.C10
@@ -604,6 +605,217 @@ theorem runOps_defaults_never_overwrite (fuel : Nat) :
           subst e1
           exact hk2 hnd
         · intro hd; exact hd2 (hd1 hd)
+
+/-! ## Failed operations: an entry is written as a whole or not at all
+
+  `mergeRec` / `defaultsRec` say nothing about the context an operation leaves when it RAISES — and a pipeline
+  goes on with that context (`swallow: True`, retry, failure handlers, loops). `mergeRecS` / `defaultsRecS`
+  (`PypyrModel/Merge.lean`) return it; the check compares it with the real context after every failed
+  operation and runs sequences past swallowed failures (`runOpsS`). Proved here, for ALL formatters, contexts,
+  incoming trees and fuel:
+  * the state-returning walks agree with the `Except` walks (same result when they return, same exception);
+  * the context a failed walk leaves IS the result of a successful walk over a truncation of the incoming tree
+    (`Trunc`: the entries before the failing one, the failing one dropped — or, a mapping into a mapping, cut
+    off the same way one level down —, nothing after it). So everything proved about runs that return — the
+    frame, the type table (`list × list → old ++ ALL formatted incoming members`, formatted against the context
+    before the entry wrote), defaults never overwrite — holds of the state a failure leaves: no path is ever
+    half-written, and doing the operation again extends from the old members.
+  * a default for a path that exists (and is not mapping × mapping) is not evaluated: the loop body returns the
+    content unchanged whatever the default is and whatever formatting it would do. -/
+
+/-- **The state-returning merge agrees with the merge** (returns: same content, no exception). -/
+theorem mergeRecS_of_ok (fmt : Fmt) (fuel : Nat) (rebuild : Pairs → Pairs) (cur add cur' : Pairs) (t : Trace)
+    (h : mergeRec fmt fuel rebuild cur add = .ok (cur', t)) :
+    mergeRecS fmt fuel rebuild cur add = (cur', none) := by
+  rw [mergeRec_eq_genRec] at h
+  exact (genRecS_agrees fmt (mergeItem fmt) fuel rebuild cur add).1 cur' t h
+
+/-- … and raises the same exception when the merge raises. -/
+theorem mergeRecS_of_error (fmt : Fmt) (fuel : Nat) (rebuild : Pairs → Pairs) (cur add : Pairs) (e : Exc)
+    (h : mergeRec fmt fuel rebuild cur add = .error e) :
+    (mergeRecS fmt fuel rebuild cur add).2 = some e := by
+  rw [mergeRec_eq_genRec] at h
+  exact (genRecS_agrees fmt (mergeItem fmt) fuel rebuild cur add).2 e h
+
+theorem defaultsRecS_of_ok (fmt : Fmt) (fuel : Nat) (rebuild : Pairs → Pairs) (cur add cur' : Pairs) (t : Trace)
+    (h : defaultsRec fmt fuel rebuild cur add = .ok (cur', t)) :
+    defaultsRecS fmt fuel rebuild cur add = (cur', none) := by
+  rw [defaultsRec_eq_genRec] at h
+  exact (genRecS_agrees fmt (defaultsItem fmt) fuel rebuild cur add).1 cur' t h
+
+theorem defaultsRecS_of_error (fmt : Fmt) (fuel : Nat) (rebuild : Pairs → Pairs) (cur add : Pairs) (e : Exc)
+    (h : defaultsRec fmt fuel rebuild cur add = .error e) :
+    (defaultsRecS fmt fuel rebuild cur add).2 = some e := by
+  rw [defaultsRec_eq_genRec] at h
+  exact (genRecS_agrees fmt (defaultsItem fmt) fuel rebuild cur add).2 e h
+
+/-- **`failed_merge_is_merge_of_truncation`.** When `merge_recurse` raises (anything but the model's own
+    out-of-fuel), the content it leaves is what a SUCCESSFUL `merge_recurse` of a truncation of the incoming
+    mapping produces from the same content: entries are written whole or not at all. -/
+theorem failed_merge_is_merge_of_truncation (fmt : Fmt) (fuel : Nat) (rebuild : Pairs → Pairs) (cur add : Pairs)
+    (e : Exc) (he : e ≠ outOfFuel) (h : mergeRec fmt fuel rebuild cur add = .error e) :
+    ∃ add', Trunc add' add ∧ ∃ t, mergeRec fmt fuel rebuild cur add' = .ok ((mergeRecS fmt fuel rebuild cur add).1, t) := by
+  rw [mergeRec_eq_genRec] at h ⊢
+  exact genRec_failed_is_trunc fmt (mergeItem fmt) (mergeItem_descendLaw fmt) e he fuel rebuild cur add h
+
+/-- the same for `defaults_recurse` -/
+theorem failed_defaults_is_defaults_of_truncation (fmt : Fmt) (fuel : Nat) (rebuild : Pairs → Pairs)
+    (cur add : Pairs) (e : Exc) (he : e ≠ outOfFuel) (h : defaultsRec fmt fuel rebuild cur add = .error e) :
+    ∃ add', Trunc add' add ∧
+      ∃ t, defaultsRec fmt fuel rebuild cur add' = .ok ((defaultsRecS fmt fuel rebuild cur add).1, t) := by
+  rw [defaultsRec_eq_genRec] at h ⊢
+  exact genRec_failed_is_trunc fmt (defaultsItem fmt) (defaultsItem_descendLaw fmt) e he fuel rebuild cur add h
+
+/-- Consequence, with the frame theorem: after a FAILED merge every path the truncated tree does not name has
+    its old value — in particular every path named only by the failing entry or by an entry after it. -/
+theorem failed_merge_frame (fmt : Fmt) (fuel : Nat) (rebuild : Pairs → Pairs) (cur add : Pairs)
+    (e : Exc) (he : e ≠ outOfFuel) (h : mergeRec fmt fuel rebuild cur add = .error e) :
+    ∃ add' t, Trunc add' add ∧ mergeRec fmt fuel rebuild cur add' = .ok ((mergeRecS fmt fuel rebuild cur add).1, t) ∧
+      ∀ p, p ≠ [] → Untouched t p → getPath (mergeRecS fmt fuel rebuild cur add).1 p = getPath cur p := by
+  obtain ⟨add', htr, t, hok⟩ := failed_merge_is_merge_of_truncation fmt fuel rebuild cur add e he h
+  exact ⟨add', t, htr, hok, mergeRec_frame fmt fuel rebuild cur add' _ t hok⟩
+
+/-- The failing entry itself, when it does not descend: the loop body's state is the content AS IT WAS
+    (`current[k].extend(…)` has not appended a single member, `current[k] = …` has not happened). -/
+theorem failed_entry_writes_nothing (fmt : Fmt) (item : Item) (recur : Rec) (recurS : RecS)
+    (rebuild : Pairs → Pairs) (cur : Pairs) (k v : Val) (e : Exc)
+    (h : item recur rebuild cur k v = .error e) (hd : Merge.descends fmt rebuild cur k v = none) :
+    itemS fmt item recur recurS rebuild cur k v = (cur, some e) := by
+  simp only [itemS, h, hd]
+
+/-- the demo of the seeded change C10-5 in the model: `log: [checkout, build, 'tag {release_tag}']` merged into
+    `log: [boot]` without `release_tag` raises and leaves `log == [boot]`; merged again after `release_tag`
+    arrived it gives each member once -/
+def failCtx : Pairs := [(.str "log", .list [.str "boot"]), (.str "keep", .int 1)]
+def failAdd : Val := .dict [(.str "log", .list [.str "checkout", .str "build", .str "tag {release_tag}"])]
+
+example : (match runOpsS 8 failCtx [(.merge failAdd, true),
+      (.merge (.dict [(.str "release_tag", .str "v1.2.3")]), false), (.merge failAdd, false)] with
+    | .ok (r, errs) => dictGet? r (.str "log") ==
+          some (.list [.str "boot", .str "checkout", .str "build", .str "tag v1.2.3"]) &&
+        errs.map (fun ie => (ie.1, ie.2.name)) == [(0, "pypyr.errors.KeyNotInContextError")]
+    | .error _ => false) = true := by decide +kernel
+
+example : mergeLeft 8 failCtx failAdd = failCtx := by decide +kernel
+
+/-- hypotheses of `failed_merge_is_merge_of_truncation` are satisfiable, and the truncation is a real one:
+    a failure two levels down keeps the entries before it at both levels -/
+example : (match mergeRec (fmtVal 8) 8 id [(.str "job", .dict [(.str "steps", .list [.str "s0"])])]
+      [(.str "a", .str "one"), (.str "job", .dict [(.str "name", .str "j2"),
+        (.str "steps", .list [.str "s1", .str "{nope}"]), (.str "late", .int 1)]), (.str "z", .int 1)] with
+    | .error e => e.name == "pypyr.errors.KeyNotInContextError" | .ok _ => false) = true ∧
+  (mergeRecS (fmtVal 8) 8 id [(.str "job", .dict [(.str "steps", .list [.str "s0"])])]
+      [(.str "a", .str "one"), (.str "job", .dict [(.str "name", .str "j2"),
+        (.str "steps", .list [.str "s1", .str "{nope}"]), (.str "late", .int 1)]), (.str "z", .int 1)]).1 =
+    [(.str "job", .dict [(.str "steps", .list [.str "s0"]), (.str "name", .str "j2")]), (.str "a", .str "one")] := by
+  constructor <;> decide +kernel
+
+/-! ### a default for a path that exists is not evaluated -/
+
+/-- **`default_for_existing_path_not_evaluated`.** The key formats to `fk`, `current[fk]` exists, and it is not
+    the case that both it and the default are mappings: the loop body of `defaults_recurse` returns the content
+    unchanged and names nothing — for EVERY default `v` and whatever the formatter would do with it (fail, pop a
+    port, …): `fmt` is not applied to `v`. -/
+theorem default_for_existing_path_not_evaluated (fmt : Fmt) (recur : Rec) (rebuild : Pairs → Pairs) (cur : Pairs)
+    (k v fk old : Val) (hk : fmt (ctxOf (rebuild cur)) k = .ok fk) (hh : hashable fk = true)
+    (hold : dictGet? cur fk = some old) (hnd : ¬ ∃ csub sub, old = .dict csub ∧ v = .dict sub) :
+    defaultsItem fmt recur rebuild cur k v = .ok (cur, []) := by
+  unfold defaultsItem
+  simp only [hk, hh, hold, Bool.not_true, Bool.false_eq_true, if_false]
+  split
+  · rename_i csub sub
+    exact absurd ⟨csub, sub, rfl, rfl⟩ hnd
+  · rfl
+
+/-- … hence two formatters that agree on the KEY give the same result on such an entry, however they differ on
+    the default itself (one may raise on it, the other not) -/
+theorem default_for_existing_path_formatter_irrelevant (fmt fmt' : Fmt) (recur : Rec) (rebuild : Pairs → Pairs)
+    (cur : Pairs) (k v v' fk old : Val) (hk : fmt (ctxOf (rebuild cur)) k = .ok fk)
+    (hk' : fmt' (ctxOf (rebuild cur)) k = .ok fk) (hh : hashable fk = true)
+    (hold : dictGet? cur fk = some old) (hnd : ∀ csub, old ≠ .dict csub) :
+    defaultsItem fmt recur rebuild cur k v = defaultsItem fmt' recur rebuild cur k v' := by
+  rw [default_for_existing_path_not_evaluated fmt recur rebuild cur k v fk old hk hh hold
+        (fun ⟨c, _, ho, _⟩ => hnd c ho),
+      default_for_existing_path_not_evaluated fmt' recur rebuild cur k v' fk old hk' hh hold
+        (fun ⟨c, _, ho, _⟩ => hnd c ho)]
+
+/-- the demo of the seeded change C10-6 in the model: `out_dir` is given, its default `'{base_dir}/out'` cannot
+    be formatted (no `base_dir`), `db.url` likewise one level down, `db: None` against a default mapping: the
+    call returns, nothing existing changed, the missing defaults are added -/
+example : (match setDefaults 8
+      [(.str "out_dir", .str "/srv/given"), (.str "db", .dict [(.str "url", .str "pg://given")]), (.str "n", .none)]
+      (.dict [(.str "out_dir", .str "{base_dir}/out"), (.str "retries", .int 3),
+              (.str "db", .dict [(.str "url", .str "pg://{db_host}/db"), (.str "pool", .int 5)]),
+              (.str "n", .dict [(.str "u", .str "{db_host}")]), (.str "label", .str "writes to {out_dir}")]) with
+    | .ok (r, _) => r == [(.str "out_dir", .str "/srv/given"),
+        (.str "db", .dict [(.str "url", .str "pg://given"), (.str "pool", .int 5)]), (.str "n", .none),
+        (.str "retries", .int 3), (.str "label", .str "writes to /srv/given")]
+    | .error _ => false) = true := by decide +kernel
+
+/-! ### sequences that go on after a swallowed failure -/
+
+/-- one operation with its state: agrees with `runOp` -/
+theorem runOpS_of_ok (fuel : Nat) (root r : Pairs) (op : Op) (h : runOp fuel root op = .ok r) :
+    runOpS fuel root op = (r, none) := by
+  cases op with
+  | merge add =>
+    simp only [runOp] at h
+    simp only [runOpS]
+    cases hm : merge fuel root add with
+    | error e => simp [hm, Except.map] at h
+    | ok rt => obtain ⟨r', t⟩ := rt; simp [hm, Except.map] at h; simp [h]
+  | defaults add =>
+    simp only [runOp] at h
+    simp only [runOpS]
+    cases hm : setDefaults fuel root add with
+    | error e => simp [hm, Except.map] at h
+    | ok rt => obtain ⟨r', t⟩ := rt; simp [hm, Except.map] at h; simp [h]
+  | step d add =>
+    simp only [runOp] at h
+    simp only [runOpS, h]
+
+theorem runOpS_of_error (fuel : Nat) (root : Pairs) (op : Op) (e : Exc) (h : runOp fuel root op = .error e) :
+    (runOpS fuel root op).2 = some e := by
+  cases op with
+  | merge add =>
+    simp only [runOp] at h
+    simp only [runOpS]
+    cases hm : merge fuel root add with
+    | error e' => simp [hm, Except.map] at h; simp [h]
+    | ok rt => simp [hm, Except.map] at h
+  | defaults add =>
+    simp only [runOp] at h
+    simp only [runOpS]
+    cases hm : setDefaults fuel root add with
+    | error e' => simp [hm, Except.map] at h; simp [h]
+    | ok rt => simp [hm, Except.map] at h
+  | step d add =>
+    simp only [runOp] at h
+    simp only [runOpS, h]
+    split <;> rfl
+
+/-- **`runOpsS_unflagged`.** Without any `swallow` flag the sequence with states is the sequence: same final
+    context, no recorded failure; same index and exception when an operation fails. -/
+theorem runOpsS_unflagged (fuel : Nat) : ∀ (ops : List Op) (i : Nat) (root : Pairs),
+    runOpsSFrom fuel i root (ops.map fun o => (o, false)) = (runOpsFrom fuel i root ops).map fun r => (r, []) := by
+  intro ops
+  induction ops with
+  | nil => intro i root; rfl
+  | cons op rest ih =>
+    intro i root
+    simp only [List.map, runOpsSFrom, runOpsFrom]
+    cases hop : runOp fuel root op with
+    | ok r1 =>
+      rw [runOpS_of_ok fuel root r1 op hop]
+      exact ih (i + 1) r1
+    | error e =>
+      have h2 := runOpS_of_error fuel root op e hop
+      cases hs : runOpS fuel root op with
+      | mk r1 oe =>
+        rw [hs] at h2
+        simp only at h2
+        subst h2
+        simp [Except.map]
 
 /-! ## Heap level: the incoming mapping is left unmodified — also by every LATER operation
 
